@@ -55,11 +55,27 @@ class Codec:
         n = self.rng.randint(0, maxlen)
         return ''.join(self.rng.choice(alphabet) for _ in range(n))
 
+    def csi_string(self):
+        """text runs and control sequences with assorted final bytes (incl. the range ends @ and ~),
+        sequences that will be rejected before ones that will be accepted, unterminated ones"""
+        rng = self.rng
+        out = ''
+        for _ in range(rng.randint(0, 5)):
+            r = rng.random()
+            if r < 0.45:
+                out += ''.join(rng.choice('ab c1;[') for _ in range(rng.randint(0, 3)))
+            elif r < 0.9:
+                out += '\x1b[' + ''.join(rng.choice('0123456789;? :<=>') for _ in range(rng.randint(0, 4))) + rng.choice('mmmJHK@~`{|}A')
+            else:
+                out += rng.choice(['\x1b[', '\x1b[12;', '\x1b', '\x1b\x1b[', '['])
+        return out
+
     def tokenize(self, s=None, flags=None):
         rng = self.rng
         if s is None:
-            s = self.tok_string() if rng.random() < 0.7 else self.tok_string('\x1b[0123456789;mHK @~?ab\n', 14)
-        allow, acc = flags if flags else rng.choice([(True, None), (False, None), (False, 'm'), (True, 'm'), (True, 'mJ'), (False, 'HJ')])
+            r = rng.random()
+            s = self.tok_string() if r < 0.4 else (self.csi_string() if r < 0.85 else self.tok_string('\x1b[0123456789;mHK @~?ab\n', 14))
+        allow, acc = flags if flags else rng.choice([(True, None), (False, None), (False, 'm'), (True, 'm'), (True, 'mJ'), (False, 'HJ'), (False, '~m'), (True, '@')])
         inp = P.line('tokenize', P.e_str(s), P.e_bool(allow), P.e_optstr(acc))
         PS = self.mod.ParsedAnsiControlSequenceString
         out = call(lambda: PS(s, allow, acc))
@@ -249,7 +265,16 @@ class Codec:
                                 '1_0', '\t4', '38; 5; 1', '5;', ';5', '4\n', '38;5;01', '21', '10', '59', '58', '48;5;0'])
         S = self.mod.AnsiSetting
         inp = P.line('setting', P.e_str(t))
-        out = call(lambda: S(t))
+        form = rng.random()
+        if form < 0.15 and ';' in t and all(t.split(';')):
+            arg = t.split(';')                       # AnsiSetting(list of str)
+        elif form < 0.25 and ';' in t and all(q.isdigit() for q in t.split(';')):
+            arg = tuple(int(q) if rng.random() < 0.5 and str(int(q)) == q else q for q in t.split(';'))
+        else:
+            arg = t
+        if isinstance(arg, (list, tuple)) and ';'.join(str(q) for q in arg) != t:
+            arg = t
+        out = call(lambda: S(S(arg)) if rng.random() < 0.3 else S(arg))
         viol = []
         if out[0] != 'ok':
             self.emit('setting', inp, P.err_line(out[1]), 'AnsiSetting(%r)' % t, [('C15', 'setting_total', repr(out[1]))])
@@ -417,6 +442,26 @@ class Codec:
         st = Step('noop', None, None, 'rejects', ())
         st.viol = viol; st.hist, st.idx = -1, len(self.steps)
         self.steps.append(st)
+
+    def table_entry(self, k=None):
+        """the regenerated Lean table, read back through the driver, equals what Python says
+        (validates the translator itself)"""
+        F = self.mod.AnsiFormat
+        names = sorted(F.__members__)
+        if k is None:
+            k = self.rng.randrange(len(names))
+        if k >= len(names):
+            return
+        m = F.__members__[names[k]]
+        exp = P.line('ok', P.e_str(names[k]), [len(m.ansi_settings)], *[P.e_str(str(x)) for x in m.ansi_settings])
+        self.emit('format', P.line('format', [k]), exp, 'formatTable[%d] = %s' % (k, names[k]), [])
+
+    def table_sizes(self):
+        from ansi_string.ansi_param import AnsiParam, EFFECT_CLEAR_DICT
+        from ansi_string.ansi_format import _AnsiControlFn
+        F = self.mod.AnsiFormat
+        exp = 'ok %d %d %d %d' % (len(list(AnsiParam)), len(EFFECT_CLEAR_DICT), len(list(_AnsiControlFn)), len(F.__members__))
+        self.emit('tables', 'tables', exp, 'table sizes', [])
 
     def terminal_twin(self, s):
         """the two terminal models must agree (an infrastructure check, not a property)"""
